@@ -107,6 +107,9 @@ def run(tier, argv):
     for m in vlib.read_ndjson(outr):
         if m["what"] in ("position", "panic"):
             bad.append({"part": "regex-parse-position", "what": m["what"], "content": m["bytes"], "pos": m["want_pos"], "want": str(m["want_pos"]), "got": json.dumps(m["got"])[:160], "trailing": False})
+    # (i-diff) differential amplification: documents on which the frozen copy and the current tree report different positions
+    for b in semcommon.lex_diff_tier(work, rep, hbin, PROP, 200000 if quick else 20000000):
+        bad.append({"part": "parse-position (differential)", "what": "position", "content": b["bytes"], "pos": -1, "want": b["what"], "got": "", "trailing": b.get("trailing", False)})
     # (ii) validation errors: position = start of the offending value / key / enclosing object (first violation in document order)
     docs, pcases, nd, nc = semcommon.generate(work, rep, "GenErrPos", "GenErrPosQuick.cfg" if quick else "GenErrPos.cfg", {"Level": "1"}, "pos")
     pm = work.path("posmism.ndjson")
